@@ -381,10 +381,7 @@ func (c cfgSub) reify(opts *options) (interface{}, error) {
 		opts.activeFields = newFieldSet(parentFields)
 		x, err := v.reify(opts)
 		if err != nil {
-			if _, ok := err.(Error); !ok {
-				ctx := v.Context()
-				err = raisePathErr(err, v.meta(), "", ctx.path("."))
-			}
+			err = raiseAt(err, v)
 		}
 		return x, err
 	}
